@@ -177,15 +177,15 @@ Section TxSim.
   Lemma inc_pw39 : forall x, inc pw x = (x + 1) mod n.
   Proof. intros. unfold inc. rewrite Hn. reflexivity. Qed.
 
-  Lemma inv_step39 : forall s g i, PInv s g -> tp_env n sp g i = true ->
+  Lemma inv_step39_up : forall s g i, PInv s g -> p_en i = true -> tp_env n sp g i = true ->
     PInv (step s i) (tp_next n sw sp g i (out s i)).
   Proof.
-    intros s g i HI Henv.
+    intros s g i HI Hen Henv.
     pose proof (retire_eq s g i HI) as Hre. pose proof (lcrd_eq s g i HI) as Hle.
     pose proof (unacked_len s g HI) as Hlenu. pose proof tn_pos as Hn0. pose proof sw8 as Hsw8.
     pinv_split HI. destruct Hctl as (Hc1 & Hc2 & Hc3).
     unfold tp_env in Henv. rewrite Hre, Hle, Hlenu, Hcr in Henv.
-    apply andb_true_iff in Henv as [Henv E2]. apply andb_true_iff in Henv as [Hen E3].
+    apply andb_true_iff in Henv as [Henv E2]. apply andb_true_iff in Henv as [_ E3].
     set (take := m_take s i). set (ret := m_retire s i) in *. set (lc := m_lcrd_ok s i) in *.
     set (lbad := m_lbad i). set (dn := m_done s i). set (deq := m_deq s i). set (bup := m_bringup s i).
     (* facts about the events of this cycle *)
@@ -234,7 +234,7 @@ Section TxSim.
       specialize (Fcnt H1 H2). lia. }
     assert (Etosend_lbad : (x_await s + b2n take) mod 2 ^ cw = x_await s + b2n take).
     { apply N.mod_small. destruct take eqn:Et; cbn [b2n]; [destruct (Ftake eq_refl)|]; lia. }
-    unfold tp_next. cbv zeta.
+    unfold tp_next. cbv zeta. rewrite Hen. cbn [negb].
     change (tp_take g i (out s i)) with take. change (q_done (out s i)) with dn. unfold tp_start. change (q_gen (out s i)) with (m_gen s i).
     change (tp_lbad i) with lbad. change (is_cmd39 i LGOOD) with (cmd_is i LGOOD).
     rewrite Hre, Hle, Hst, Hfly, Hdl, Hlenu, Hup, Hcr, Hnc, Hsq. fold ret lc.
@@ -425,6 +425,54 @@ Section TxSim.
              ++ cbn [andb] in Eq. apply N.eqb_neq in Eq. rewrite Hts in Eq.
                 destruct take, ret eqn:Err; cbn [b2n]; flia.
              ++ destruct take, ret eqn:Err; cbn [b2n]; flia.
+  Qed.
+
+  (* a cycle with the link down (allowed only while the transmitter is quiescent) forgets the session on both sides *)
+  Lemma inv_step39_down : forall s g i, PInv s g -> p_en i = false -> tp_quiet g = true ->
+    PInv (step s i) (tp_next n sw sp g i (out s i)).
+  Proof.
+    intros s g i HI Hen Hq. pose proof (unacked_len s g HI) as Hlenu. pose proof tn_pos as Hn0.
+    pose proof (pow2_gt0 sw) as Hp.
+    pinv_split HI. destruct Hctl as (Hc1 & Hc2 & Hc3).
+    unfold tp_quiet in Hq. rewrite Hfly, Hdl, Hlenu in Hq.
+    apply andb_true_iff in Hq as [Hq Hq3]. apply andb_true_iff in Hq as [Hq1 Hq2].
+    apply negb_true_iff in Hq1. apply negb_true_iff in Hq3. apply N.eqb_eq in Hq2.
+    assert (Hst0 : x_stale s = false).
+    { destruct (x_stale s) eqn:E; [|reflexivity]. destruct (Hc1 eq_refl) as [H _]. congruence. }
+    assert (Hfsm : x_fsm s = P_DISPATCH).
+    { destruct (x_fsm s); [reflexivity | |].
+      - destruct Hc3 as [_ H]. destruct (H Hq1) as [H'|H']; [congruence | clear - H' Hq2; lia].
+      - destruct Hc3 as [H _]. congruence. }
+    assert (Hgen : m_gen s i = false) by (unfold m_gen; rewrite Hfsm; reflexivity).
+    assert (Hdn : m_done s i = false) by (unfold m_done; rewrite Hq1; reflexivity).
+    assert (Hts0 : x_tosend s = 0) by (clear - Hts Hq2; lia).
+    unfold tp_next. cbv zeta. rewrite Hen. cbn [negb].
+    change (q_done (out s i)) with (m_done s i). unfold tp_start. change (q_gen (out s i)) with (m_gen s i).
+    change (tp_take g i (out s i)) with (m_take s i). change (is_cmd39 i LGOOD) with (cmd_is i LGOOD).
+    change (tp_lbad i) with (m_lbad i).
+    rewrite Hup, Hsq, Hfly, Hst, Hdn, Hgen, Hq1, Hst0.
+    unfold ptx_step. cbv zeta. rewrite Hen, Hdn, Hgen, Hq1, Hst0, Hfsm, Hts0.
+    unfold PInv, ctl_ok.
+    cbn [t_up t_cred t_nextcred t_seq t_unacked t_sent t_dl t_fly t_stale andb orb negb
+         x_cred x_tosend x_await x_rd x_wr x_ak x_bufs x_tseq x_retry x_up x_ncred x_nack x_timer x_fsm x_busy x_stale].
+    rewrite andb_false_r. change (0 =? 0) with true. rewrite andb_false_r.
+    repeat match goal with |- _ /\ _ => split end;
+      try reflexivity; try discriminate; try (clear - Hn0; lia); try (intros; discriminate).
+    - pose proof (N.mod_lt (p_sub i + 1) (2 ^ sw)) as Hm. pose proof (inc_lt sw (x_tseq s)) as Hi.
+      clear - Hm Hi Hp Hsql. unfold m_bringup. destruct (cmd_is i LGOOD && negb (x_up s)); [lia|]. destruct (m_take s i); lia.
+    - destruct (m_take s i); [rewrite upd_length|]; exact Hlen.
+    - pose proof (N.mod_lt (p_sub i + 1) (2 ^ sw)) as Hm. pose proof (inc_lt sw (x_nack s)) as Hi.
+      clear - Hm Hi Hp Hnal. destruct (m_bringup s i); [lia|]. destruct (m_retire s i); lia.
+  Qed.
+
+  Lemma inv_step39 : forall s g i, PInv s g -> tp_env n sp g i = true ->
+    PInv (step s i) (tp_next n sw sp g i (out s i)).
+  Proof.
+    intros s g i HI Henv. destruct (p_en i) eqn:Hen.
+    - apply inv_step39_up; assumption.
+    - apply inv_step39_down; [assumption | assumption |].
+      unfold tp_env in Henv. rewrite Hen in Henv. cbn [orb] in Henv.
+      apply andb_true_iff in Henv as [Henv _]. apply andb_true_iff in Henv as [Henv _]. exact Henv.
   Qed.
 
   Lemma pinv_init : PInv (ptx_init n sw) tp_init.
